@@ -225,8 +225,17 @@ _METHODS = {
     "diagonal": lambda a, offset=0, **k: a.diagonal(offset, **k).copy(),
     "trace": lambda a, offset=0: a.trace(offset),
     "prod": lambda a, axis=None: a.prod(axis=axis),
+    "nonzero": lambda a: _numeric_only(a, "nonzero").nonzero(),
+    "argsort": lambda a, **k: _numeric_only(a, "argsort").argsort(**k),
+    "cumsum": lambda a, **k: _numeric_only(a, "cumsum").cumsum(**k),
     "round": lambda a, decimals=0: _round(a, decimals),
 }
+
+
+def _numeric_only(a, what):
+    if a.dtype == object:
+        raise NotSymbolic(f"{what} of symbolic values")
+    return a
 
 
 def _order(o):
@@ -309,7 +318,24 @@ class ProgramError(Exception):
     """The evaluated program text would raise (e.g. numpy's LinAlgError for a non-square determinant)."""
 
 
-_LINALG_FUNCS = {"det": _det, "norm": _norm}
+def _inv(a):
+    """Inverse of a small numeric matrix (numbers only: a symbolic inverse is outside the fragment)."""
+    a = a if isinstance(a, np.ndarray) else np.array(a)
+    if a.dtype == object:
+        try:
+            a = np.array([[float(Sym.const(x).terms.get((), 0)) if all(m == () for m in Sym.const(x).terms) else None for x in row] for row in a], dtype=float)
+        except TypeError:
+            raise NotSymbolic("inverse of a symbolic matrix") from None
+        if np.isnan(a).any():
+            raise NotSymbolic("inverse of a symbolic matrix")
+    if a.ndim != 2 or a.shape[0] != a.shape[1]:
+        raise ProgramError("LinAlgError")
+    if abs(np.linalg.det(a)) < 1e-300:
+        raise ProgramError("LinAlgError")
+    return np.linalg.inv(a)
+
+
+_LINALG_FUNCS = {"det": _det, "norm": _norm, "inv": _inv}
 
 
 def _einsum(spec, *ops):
